@@ -122,6 +122,9 @@ class RealWorld(env.BaseWorld):
 
     def sleep(self, d):
         self.sleeps += 1
+        if self.sleeps > self.max_sleeps and getattr(self, 'soft_block', False):
+            self.sleeps = 0
+            raise env.WouldBlock()
         if self.sleeps > self.max_sleeps:
             raise env.Spin('sleep bound')
         self.event('sleep', str(d))
